@@ -165,6 +165,43 @@ class LMInterp(guards.GInterp):
 
     def ev_MCall(self, n):
         name = n["name"]
+        # mutable views of a matrix: element references in the view's order
+        if name in ("column_mut", "row_mut", "iter_mut", "as_mut_slice") and ("nalgebra" in (n.get("def") or "") or name in ("iter_mut",)):
+            v = self.ev(n["recv"])
+            if isinstance(v, sp.MatrixBase):
+                if name == "column_mut":
+                    c = int(self.ev(n["args"][0]))
+                    return [sym.ElemRef(v, (r, c)) for r in range(v.shape[0])]
+                if name == "row_mut":
+                    r = int(self.ev(n["args"][0]))
+                    return [sym.ElemRef(v, (r, c)) for c in range(v.shape[1])]
+                return [sym.ElemRef(v, (r, c)) for c in range(v.shape[1]) for r in range(v.shape[0])]      # column-major
+            if isinstance(v, list) and name in ("iter_mut", "as_mut_slice"):
+                return [x if isinstance(x, sym.ElemRef) else sym.ElemRef(v, i) for i, x in enumerate(v)]
+        if name in ("zip", "enumerate", "for_each", "take", "skip", "rev") and not ("nalgebra" in (n.get("def") or "")):
+            try:
+                recv = self.listify(n["recv"])
+            except sym.Unsupported:
+                recv = None
+            if recv is not None:
+                if name == "zip":
+                    other = self.listify(n["args"][0])
+                    return list(zip(recv, other))
+                if name == "enumerate":
+                    return [(sp.Integer(i), x) for i, x in enumerate(recv)]
+                if name == "take":
+                    return recv[:int(self.ev(n["args"][0]))]
+                if name == "skip":
+                    return recv[int(self.ev(n["args"][0])):]
+                if name == "rev":
+                    return list(reversed(recv))
+                if name == "for_each":
+                    fn = n["args"][0]
+                    if fn.get("k") != "Closure":
+                        raise sym.Unsupported(n, "for_each with a non-closure")
+                    for x in recv:
+                        self.apply_closure(sym.ClosureVal(fn, None), [x], n)
+                    return None
         if name in ("map", "fold", "sum"):
             recv = self.listify(n["recv"])
             if name == "map":
